@@ -40,6 +40,9 @@ impl<'a> CharacterString<'a> {
     open spec fn wf_nocomp() -> bool { false }
     open spec fn wf_eqv(&self, other: &Self) -> bool { self.bytes() == other.bytes() }
     proof fn lemma_det(data: Seq<u8>, p: int, v1: &Self, e1: int, v2: &Self, e2: int) {}
+    open spec fn wf_fit(&self) -> bool { true }
+    open spec fn wf_empty_ok() -> bool { false }
+    proof fn lemma_dec_ok(data: Seq<u8>, p: int, v: &Self, p2: int) {}
     proof fn lemma_rt(&self, pre: Seq<u8>) {
         let d = pre + self.wf_enc();
         assert(d[pre.len() as int] == self.bytes().len() as u8);
